@@ -11,7 +11,9 @@ Definition bres_obs (r : bres) : list Z :=
   | BOkInt z => [0; z]
   | BOkUnit => [1; 0]
   | BOkWord w => [2; Z.of_N w]
+  | BOkStr bs => [3; Z.of_N (le_val bs + 256 ^ N.of_nat (length bs))]   (* bytes as a base-256 numeral with a leading 1 *)
   | BErr => [9; 0]
+  | BBad => [99; 0]
   end.
 
 Fixpoint b_obs (s : bstate) (os : list bop) : list Z :=
